@@ -350,6 +350,12 @@ def rule_exit(rep, sh, size_limit=False):
                         c[2][2][0] == 'mk' and c[2][2][1] == 'SignedConstant' and any(y[0] == 'call' and y[1] == 'getSizeLimit' for y in subtrees(c[2][2]))
                     det = 'size-limit exit is %s; required Exit(Constraint(GE|GT, RelationSize(Main), SignedConstant(getSizeLimit(rel))))' % show(e)[:200]
                 rep.ob('R1-size-limit-exit', label, ok, f.where, '' if ok else det)
+                # several limited relations in one stratum: "holds at least the limit's number of tuples" for EACH of them requires that the
+                # loop does not stop while another limited relation is still below its own limit, i.e. ONE exit over the conjunction
+                per_relation = bool(lims) and lims[0][0] == 'foreach'
+                rep.ob('R1-size-limits-of-a-stratum-are-conjoined', label, not per_relation, f.where,
+                       '' if not per_relation else 'one Exit per limited relation is emitted: the first relation to reach its limit ends the loop although another '
+                       'limited relation of the same stratum is still below its limit')
                 # the emptiness exit precedes the limit exits
                 okp = bool(exits) and exits[0][0] == 'mk' and any(x[0] == 'mk' and x[1] == 'EmptinessCheck' for x in subtrees(exits[0]))
                 rep.ob('R1-size-limit-after-emptiness', label, okp, f.where, '' if okp else 'the size-limit exit is not placed after the emptiness exit')
